@@ -68,6 +68,18 @@ def search(_payload):
                 r = replay({'fn': 'point_in_bounds', 'args': [float(x), float(y)] + b + [t]})
                 if r['fails']:
                     return {'found': True, 'input': ('point_in_bounds', float(x), float(y), b, t), 'observed': r['observed'], 'expected': r['expected'], 'tried': tried}
+    # values a hair outside a bound, far outside, infinite; bounds equal to the value as distinct float objects
+    for l, u in ((0.0, 11.81), (-23.5, 47.1234), (1e-3, 1e3)):
+        for v in (u * (1 + 1e-11), u + 1e-10, l - 1e-10, 1e18, -1e18, float('inf'), float('-inf'), float(str(u)), float(str(l)), (l + u) / 2):
+            for fn, a in (('checkLimits', [v, l, u]), ('constrainLimits', [v, l, u]), ('checkLimitsTol', [v, l, u, 0.0]), ('checkLimitsTol', [v, l, u, 1e-12])):
+                tried += 1
+                exp = oracle(fn, a)
+                try:
+                    obs = call(fn, a)
+                except Exception as e:   # noqa
+                    return {'found': True, 'input': (fn, a), 'observed': repr(e), 'expected': repr(exp), 'tried': tried}
+                if obs != exp:
+                    return {'found': True, 'input': (fn, a), 'observed': repr(obs), 'expected': repr(exp), 'tried': tried}
     # call history: the caller keeps ONE bounds list and edits it in place between calls (landscape -> portrait)
     for t in (0.0, 0.25):
       travel = [[0.0, 0.0], [10.0, 8.0]]
